@@ -74,6 +74,14 @@ def check(ctx):
     for b in (new, prep, try_recv, gc, drop, clone, ent):
         if b is not None:
             ctx.touch(b, calls=len(list(b.iter_calls())))
+    # private field names by type (they may be renamed): the despawner's two channel ends, the payload's entity and sender
+    def _by_ty(adt_, pat_, dflt_):
+        fs_ = [f_["name"] for f_ in adt_["variants"][0]["fields"] if re.search(pat_, f_["ty"])]
+        return fs_[0] if len(fs_) == 1 else dflt_
+    D_SND = _by_ty(desp, r"channel::Sender<bevy_ecs::entity::Entity>$", "sender")
+    D_RCV = _by_ty(desp, r"channel::Receiver<bevy_ecs::entity::Entity>$", "receiver")
+    P_ENT = _by_ty(inner, r"^bevy_ecs::entity::Entity$", "entity")
+    P_SND = _by_ty(inner, r"channel::Sender<bevy_ecs::entity::Entity>$", "sender")
     build = new if new is not None else prep        # where the payload is built
     recv = try_recv if try_recv is not None else gc  # where the channel is read
     # ---- C10.a one payload per prepare ----
@@ -107,7 +115,7 @@ def check(ctx):
         okp = len(pn) == 1
         if okp:
             t = pn[0][1]
-            okp = lib.originates_from_arg(prep, t["args"][0], 2) and all(o[0] == "arg" and o[1] == 1 and o[-1] == ".sender" for o in origins(prep, t["args"][1]))
+            okp = lib.originates_from_arg(prep, t["args"][0], 2) and all(o[0] == "arg" and o[1] == 1 and o[-1] == "." + D_SND for o in origins(prep, t["args"][1]))
     else:
         # built in place: the aggregate's entity operand is the entity argument, its sender operand a clone of self.sender
         okp = False
@@ -116,10 +124,10 @@ def check(ctx):
                 if st_["k"] == "assign" and "agg" in st_["rv"] and st_["rv"]["agg"].get("adt") == inner["path"]:
                     ag_ = st_["rv"]["agg"]
                     fs_ = dict(zip(ag_.get("fields", []), ag_["ops"]))
-                    okp = "entity" in fs_ and "sender" in fs_ and lib.originates_from_arg(prep, fs_["entity"], 2)
+                    okp = P_ENT in fs_ and P_SND in fs_ and lib.originates_from_arg(prep, fs_[P_ENT], 2)
                     if okp:
-                        os_ = origins(prep, fs_["sender"])      # (provenance looks through Clone::clone)
-                        okp = bool(os_) and all(o[0] == "arg" and o[1] == 1 and o[-1] == ".sender" for o in os_)
+                        os_ = origins(prep, fs_[P_SND])      # (provenance looks through Clone::clone)
+                        okp = bool(os_) and all(o[0] == "arg" and o[1] == 1 and o[-1] == "." + D_SND for o in os_)
     ctx.check(okp, "C10.a", "AutoDespawner::prepare:own-entity-own-sender", "%s:%d" % (prep.file, prep.line),
               "new(entity, self.sender.clone())", "prepare does not pass its entity argument and the despawner's own sender")
 
@@ -132,8 +140,8 @@ def check(ctx):
     oks = cnt == {1} and len(sends) == 1
     if oks:
         t = sends[0][1]
-        oks = all(o[0] == "arg" and o[1] == 1 and o[-1] == ".sender" for o in origins(drop, t["args"][0])) and \
-            all(o[0] == "arg" and o[1] == 1 and o[-1] == ".entity" for o in origins(drop, t["args"][1]))
+        oks = all(o[0] == "arg" and o[1] == 1 and o[-1] == "." + P_SND for o in origins(drop, t["args"][0])) and \
+            all(o[0] == "arg" and o[1] == 1 and o[-1] == "." + P_ENT for o in origins(drop, t["args"][1]))
     ctx.check(oks, "C10.b", "AutoDespawnSignalInner::drop:one-send-of-own-entity", "%s:%d" % (drop.file, drop.line),
               "Drop sends self.entity on self.sender exactly once on its only path", "Drop sends %s times or not its own entity on its own sender" % sorted(cnt))
     readers = {}
@@ -163,16 +171,16 @@ def check(ctx):
                             readers.setdefault(nm, set()).add(body.path)
     allowed = {"entity": {build.path, drop.path, ent.path}, "sender": {build.path, drop.path}}
     for f in ("entity", "sender"):
-        extra = readers.get(f, set()) - allowed[f]
+        extra = readers.get(P_ENT if f == "entity" else P_SND, set()) - allowed[f]
         ctx.check(not extra, "C10.b", "AutoDespawnSignalInner.%s:touched-only-by-new-drop%s" % (f, "-entity" if f == "entity" else ""), "",
                   "field touched only by %s" % sorted(lib.tail(x, 2) for x in readers.get(f, set())), "field %s of the payload is used in %s" % (f, sorted(extra)))
 
     # ---- C10.c only the framework receives ----
     users = {"sender": set(), "receiver": set()}
     for body in prog.bodies:
-        for b, t, n, ch in lib.field_method_calls(body, desp["path"], "sender"):
+        for b, t, n, ch in lib.field_method_calls(body, desp["path"], D_SND):
             users["sender"].add((body.path, lib.tail(n, 2)))
-        for b, t, n, ch in lib.field_method_calls(body, desp["path"], "receiver"):
+        for b, t, n, ch in lib.field_method_calls(body, desp["path"], D_RCV):
             users["receiver"].add((body.path, lib.tail(n, 2)))
     derived_clone = {i["path"] for im in prog.impls if im.get("self_adt") == desp["path"] and im.get("derived") for i in im["items"]}
     su = {u for u in users["sender"] if u[0] not in derived_clone}
@@ -198,7 +206,7 @@ def check(ctx):
     try:
         dn = A.method(prog, "AutoDespawner", "new")
         ctx.touch(dn)
-        ok, det = lib.channel_pairing(dn, "AutoDespawner", "sender", "receiver")
+        ok, det = lib.channel_pairing(dn, "AutoDespawner", D_SND, D_RCV)
         ctx.check(ok, "C10.c", "AutoDespawner::new:channel-paired", "%s:%d" % (dn.file, dn.line), "sender and receiver are the two ends of one unbounded channel",
                   "the despawner's sender and receiver are not the two ends of the same channel (%s)" % det)
         cons = [lib.fkey(bd) for bd in prog.bodies for b, i, st in bd.iter_stmts() if st["k"] == "assign" and "agg" in st["rv"] and st["rv"]["agg"].get("adt") == desp["path"]]
@@ -220,7 +228,7 @@ def check(ctx):
         if try_recv is not None:
             return dn_ == try_recv.path
         # reads the channel itself: Receiver::try_recv on the despawner's receiver field
-        return lib.tail(dn_, 1) == "try_recv" and any(True for (b_, t_, n_, ch_) in lib.field_method_calls(gc, desp["path"], "receiver") if b_ == L_.driver)
+        return lib.tail(dn_, 1) == "try_recv" and any(True for (b_, t_, n_, ch_) in lib.field_method_calls(gc, desp["path"], D_RCV) if b_ == L_.driver)
     okl = len(Ls) == 1 and Ls[0].driver is not None and _drv_ok(Ls[0]) and not Ls[0].exits
     ctx.check(okl, "C10.e", "garbage_collect_entities:drains-until-empty", "%s:%d" % (gc.file, gc.line), "single loop driven by try_recv with no other exit",
               "the collector does not drain the channel until it is empty")
